@@ -14,10 +14,21 @@ let take_sys () = let before = List.length !sys in fun after -> calls := !calls 
 let state_line (s : prng_state) =
   Printf.sprintf "%d %d %d %s" (int_of_nat s.r_counter) (int_of_nat s.r_xof.x_count) (if s.r_xof.x_mode then 1 else 0) (hex_of_bytes s.r_xof.x_st)
 
-let storage_of toks = match toks with
+(* RN SAVE|LOAD NULL | <size> <read result> <read data> <write result> [<page_size> <erase_size> <address> <partial_writes>] *)
+let storage_of toks =
+  let cb size rr rdata wr = { st_size = nat_of_int (int_of_string size); st_read = (zi (int_of_string rr), bytes_of_hex rdata); st_write = zi (int_of_string wr) } in
+  match toks with
   | ["NULL"] -> None
-  | [size; rr; rdata; wr] -> Some { st_size = nat_of_int (int_of_string size); st_read = (zi (int_of_string rr), bytes_of_hex rdata); st_write = zi (int_of_string wr) }
+  | [size; rr; rdata; wr] -> Some { nv_page = nat_of_int 1; nv_erase = nat_of_int 0; nv_addr = nat_of_int 0; nv_partial = true; nv_cb = cb size rr rdata wr }
+  | [size; rr; rdata; wr; page; erase; addr; partial] ->
+    Some { nv_page = nat_of_int (int_of_string page); nv_erase = nat_of_int (int_of_string erase); nv_addr = nat_of_int (int_of_string addr);
+           nv_partial = (partial <> "0"); nv_cb = cb size rr rdata wr }
   | _ -> failwith "storage"
+
+(* the callback calls in the harness's notation *)
+let call_str = function
+  | CbRead (off, len) -> Printf.sprintf " R:%d:%d" (int_of_nat off) (int_of_nat len)
+  | CbWrite (off, len, d, e) -> Printf.sprintf " W:%d:%d:%s:%s" (int_of_nat off) (int_of_nat len) (if e then "1" else "0") (hex_of_bytes d)
 
 let process (toks : string list) : string =
   match toks with
@@ -39,7 +50,7 @@ let process (toks : string list) : string =
       let upd = take_sys () in
       let (((s', r), w), sys') = (if op = "SAVE" then x_prng_save else x_prng_load) s (storage_of st) !sys in
       upd sys'; gen := Some s';
-      Printf.sprintf "%d %s" (int_of_z r) (match w with None -> "NOWRITE" | Some b -> hex_of_bytes b))
+      Printf.sprintf "%d calls=%d%s" (int_of_z r) (List.length w) (String.concat "" (List.map call_str w)))
   | ["RN"; "STATE"] -> (match !gen with None -> "NOSLOT" | Some s -> state_line s)
   | ["RN"; "CALLS"] -> string_of_int !calls
   | ["RN"; "FREE"] -> gen := None; "OK"
